@@ -1612,7 +1612,7 @@ def corpus():
 
 
 # ------------------------------------------------------------------ streams
-def tie_check(ctx, prog, tie, verdict, stream):
+def tie_check(ctx, prog, tie, verdict, stream, imp=None):
     """The refinement theorems' own definitions, evaluated by the driver on this program: for every import line
     the line record `impAt i pre source q` against the record built from the text, and the destination
     `impDest parents i pre` (computed from the model's hierarchy stack) against the destination of the
@@ -1637,6 +1637,42 @@ def tie_check(ctx, prog, tie, verdict, stream):
         # program with verdict "rejected" is no contradiction)
         ctx.count("tie.runNB.%s" % tie["nested"])
         ctx.count("tie.runNB.%s.spec_%s" % (tie["nested"], verdict))
+    if "inv" in tie:
+        # invB (C17_inv_decidable / C17_refinement_env_checked_partial): the invariant the refinement theorems assume
+        # of the environment the main program starts from (parsed base, parsed remote files), as computed by the
+        # driver on the model's environment.  Tied to the real objects: the real base / remote nodes (already
+        # compared field by field with the model's by judge) must all hold a value when invB accepts, and when invB
+        # refuses because of a declared node the real environment must hold a node without value too.
+        mode = ("base" if prog.get("base") is not None else "") + ("remote" if prog["sources"] else "") or "local"
+        ctx.count("tie.invB.%s.%s" % ("accepts" if tie["inv"] else "refuses", mode))
+        if not tie["inv"]:
+            ctx.count("tie.invB.refuses.%s" % ("declared" if tie.get("inv_declared") else "other"))
+        real = None
+        if imp is not None:
+            if "base_before" in imp:
+                srcs = imp.get("base_src_before") or {}
+                if all(isinstance(v, list) for v in srcs.values()):
+                    real = list(imp["base_before"]["nodes"]) + [n for v in srcs.values() for n in v]
+            elif imp.get("status") == "ok" and isinstance(imp.get("sources"), dict) and \
+                    all(isinstance(v, list) for v in imp["sources"].values()):
+                real = [n for v in imp["sources"].values() for n in v]
+        if real is not None:
+            real_declared = [n["name"] for n in real if n["value"] is None]
+            ctx.count("tie.invB.real_%s" % ("declared" if real_declared else "all_valued"))
+            if tie["inv"] and real_declared:
+                ctx.disagreement(stream + ":theorem-tie", {"program": prog},
+                                 "invB accepts the initial environment but the real one holds nodes without value: %s" % real_declared)
+            if tie.get("inv_declared") and not real_declared:
+                ctx.disagreement(stream + ":theorem-tie", {"program": prog},
+                                 "invB refuses the initial environment for a declared node (%s) but every real node holds a value" % tie.get("inv_bad"))
+        covered = tie["inv"] and tie.get("nested") == "accepts"
+        ctx.count("tie.covered.%s" % ("yes" if covered else "no"))
+        if covered and verdict == "ok":
+            # the conclusion of C17_refinement_env_checked_partial, observed: the model accepts and invB accepts its result
+            ctx.count("tie.covered.spec_ok.final_inv_%s" % tie.get("inv_final"))
+            if tie.get("inv_final") is not True:
+                ctx.disagreement(stream + ":theorem-tie", {"program": prog},
+                                 "invB and runNB accept, the specification accepts, but the model's run / final invB gives %s" % tie.get("inv_final"))
 
 
 def prog_stream(ctx, progs, stream):
@@ -1667,7 +1703,7 @@ def prog_stream(ctx, progs, stream):
                  {"main": text_of(prog["main"])[:400], "spec": verdict, "impl": imp["status"]})
         ctx.count("%s.spec_%s" % (stream, verdict))
         ctx.count("%s.impl_%s" % (stream, imp["status"]))
-        tie_check(ctx, prog, r["ok"].get("tie"), verdict, stream)
+        tie_check(ctx, prog, r["ok"].get("tie"), verdict, stream, imp)
         ctx.count("%s.mode_%s" % (stream, ("base" if prog.get("base") is not None else "") + ("remote" if prog["sources"] else "") or "local"))
         for l in prog["main"]:
             if l["k"] in ("def", "mod") and "ref" in l["val"]:
